@@ -34,6 +34,7 @@ def rename(clauses, mapping=None, prefix_from=None, prefix_to=None):
 def collapse(clauses, name, note=""):
     """merge sub-clauses into one obligation: discharged iff all are; otherwise
     the failing ones are kept (renamed under the obligation)"""
+    clauses = [Clause(c.name, c.status, c.backend, c.detail, c.witness, c.secs) for c in clauses]
     bad = [c for c in clauses if c.status != "discharged"]
     if not clauses:
         return [Clause(name, "undecided", "", "no clause generated")]
